@@ -228,9 +228,9 @@ def RState.nextBody (s : RState) : Option (Option (Except RErr Token)) × RState
         | none => (some (some (.error .eof)), s1)
       else
         let s1 := { s with delimiterCheckPending := true }
-        match takeN len s.dec.rest with
-        | some (v, r) => (some (some (.ok (.itemValue v))), { s1 with dec := { s.dec with rest := r, pos := s.dec.pos + len } })
-        | none => (some (some (.error .eof)), s1)
+        -- `read_to_vec` = `io::copy(take(len))`: never fails at EOF, returns what is there, position += len
+        (some (some (.ok (.itemValue (s.dec.rest.take len)))),
+          { s1 with dec := { s.dec with rest := s.dec.rest.drop len, pos := s.dec.pos + len } })
     | _ =>
       match s.lastHeader with
       | some header =>
